@@ -18,16 +18,24 @@ def main():
         from msmv import runner, plans
         w = json.load(open(a.file)) if a.file.endswith('.json') else None
         if w is None:
-            # a libFuzzer artifact of the PlantUML tokenizer target: re-run it
-            import subprocess, glob as _g
+            # a libFuzzer artifact: re-run it on the target it belongs to (rebuilt by the check for the current tree)
+            import subprocess, glob as _g, re as _re
             from msmv import build
-            bins = _g.glob(os.path.join(build.BUILD, 'puml_fuzz_' + build.tree_hash()[:16], 'puml_fuzz'))
+            base = os.path.basename(a.file)
+            m = _re.match(r'(C\d+)_(.+)_(crash|leak)-', base)
+            if not m:
+                print('unknown artifact name'); sys.exit(2)
+            prop_, tgt = m.group(1), m.group(2)
+            if prop_ == 'C14':
+                bins = _g.glob(os.path.join(build.BUILD, 'puml_fuzz_' + build.tree_hash()[:16], 'puml_fuzz'))
+            else:
+                bins = _g.glob(os.path.join(build.BUILD, 'c20b_' + build.tree_hash()[:16], tgt))
             if not bins:
-                print('build the target first: verif.py check C14'); sys.exit(2)
+                print('build the target first: verif.py check %s' % prop_); sys.exit(2)
             r = subprocess.run([bins[0], a.file], capture_output=True, text=True)
             if r.returncode == 0:
                 print('replay passes on this tree'); sys.exit(0)
-            print('VIOLATION property=C14 replay=%s' % a.file); print(r.stderr[-800:]); sys.exit(1)
+            print('VIOLATION property=%s replay=%s' % (prop_, a.file)); print(r.stderr[-800:]); sys.exit(1)
         if w.get('kind') == 'pumlguard':
             ok, detail = runner.replay_pumlguard(w['expr'])
             if ok:
